@@ -639,6 +639,58 @@ def label_built_only_by_new(F, site=None):
         callers_within("ast::Label::new", [r"<ast::Label as parse::simple::DirectTokenParse>::match_"])(F, None)
 
 
+def wrap_split_is_fresh(F, site):
+    """`ch.split_at(start.wrapping_neg() as usize)`: the split point is computed from the value of
+    `start` that is current at the split (no assignment to `start` on any path from the
+    wrapping_neg call to the split), and `start` is the local the destination index is built from"""
+    b = site.body
+    mid = panics._unwrap_var(b.expr_of_operand(site.ops[1]))
+    if not (mid[0] == "cast" and mid[1] == "usize"):
+        return False
+    inner = panics._unwrap_var(mid[2])
+    if not (inner[0] == "call" and (inner[1] or "").endswith("<impl u16>::wrapping_neg")):
+        return False
+    calls = [(bi, t) for bi, t, callee, raw in b.calls() if (callee or "").endswith("<impl u16>::wrapping_neg")]
+    if len(calls) != 1:
+        return False
+    x, t = calls[0]
+    r = _root_read(b, t["args"][0], x)
+    if r is None:
+        return False
+    loc, x = r            # the user variable that is read, and the block where it is read
+    succ = b.succs(x)
+    if len(succ) != 1:
+        return False
+    between = panics._blocks_between(b, succ[0], site.block, avoid={x})
+    for (bi, si, rv) in b.defs().get(loc, []):
+        if bi in between:
+            return False
+    # the same local feeds the destination start index (`si = usize::from(start)`)
+    for bi, t2, callee, raw in b.calls():
+        if (callee or "").endswith("From<u16> for usize>::from"):
+            r2 = _root_read(b, t2["args"][0], bi)
+            if r2 and r2[0] == loc:
+                return True
+    return False
+
+
+def _root_read(b, op, block):
+    """follow `tmp = copy x` chains of unnamed single-assignment temporaries back to a user
+    variable; returns (local, block in which it is read)"""
+    for _ in range(8):
+        if op.get("k") not in ("copy", "move") or op["p"]["proj"]:
+            return None
+        l = op["p"]["l"]
+        if b.local_name(l) is not None:
+            return (l, block)
+        ds = b.defs().get(l, [])
+        if len(ds) != 1 or ds[0][1] == "term" or ds[0][2]["k"] != "use":
+            return None
+        block = ds[0][0]
+        op = ds[0][2]["op"]
+    return None
+
+
 def E(tag, why, n=1, when=None, scope=None):
     return dict(tag=tag, why=why, n=n, when=when, scope=scope)
 
@@ -741,7 +793,8 @@ TABLE = {
     "sim::mem::MemArray::copy_obj_block|call|core::slice::<impl [T]>::copy_from_slice": [
         E("D-TABLE", "destination ranges si..ei / si.. + ..ei have total length chunk.len(): end = start +w len, contiguous iff start <= end; len <= 65535 because block lengths are u16 (assembler: Cursor::shift; readers: u16 length fields)", n=3)],
     "sim::mem::MemArray::copy_obj_block|call|core::slice::<impl [T]>::split_at": [
-        E("D-TABLE", "split_at(2^16 - start): only on the wrapped edge, where chunk.len() > 2^16 - start")],
+        E("D-GUARD", "split_at(2^16 - start) with the current `start`: only on the wrapped edge (start > end = start +w len), where chunk.len() > 2^16 - start",
+          when=wrap_split_is_fresh)],
     "sim::mem::MemArray::copy_obj_block|call|std::array::<impl std::ops::IndexMut<I> for [T; N]>::index_mut": [
         E("D-GUARD", "index ranges are built from u16 values into a 65 536-element array; si..ei only on the start <= end edge", n=6, when=range_args_from_u16)],
     "sim::mem::MemArray::copy_obj_block::{closure#1}|call|std::option::Option::unwrap": [
